@@ -81,8 +81,9 @@ def timestamp_to_sf_struct(ts: pa.Array | pa.ChunkedArray) -> pa.Array:
     tsa_without_us = pc.floor_temporal(ts, unit="second")  # type: ignore https://github.com/zen-xu/pyarrow-stubs/issues/45
     epoch = pc.divide(tsa_without_us.cast(pa.int64()), 1_000_000)  # type: ignore https://github.com/zen-xu/pyarrow-stubs/issues/44
 
-    # Calculate fractional part as nanoseconds
-    fraction = pc.multiply(pc.subsecond(ts), 1_000_000_000).cast(pa.int32())  # type: ignore
+    # Calculate fractional part as nanoseconds, with integer arithmetic (microseconds since the whole second)
+    # because multiplying the float pc.subsecond() is inexact eg: .000065 -> 65000.00000000001
+    fraction = pc.multiply(pc.subtract(ts.cast(pa.int64()), tsa_without_us.cast(pa.int64())), 1000).cast(pa.int32())  # type: ignore
 
     # a null timestamp is a null struct (with any value in its non-nullable fields)
     nulls = ts.is_null()
